@@ -6,7 +6,7 @@ HARNESS_TIMEOUT = {'quick': 900, 'thorough': 7200}
 
 # files whose failure means the executable model itself does not build
 MODEL_FILES = ['theories/Base.v', 'theories/Lines.v', 'theories/Lifecycle.v', 'theories/Regex.v', 'theories/Claims.v',
-               'theories/Obs.v', 'theories/CaseClaims.v', 'theories/RunC14.v', 'theories/RunHist.v', 'theories/Run.v', 'spec/SpecTables.v', 'gen/GenConsts.v']
+               'theories/Obs.v', 'theories/CaseClaims.v', 'theories/RunC14.v', 'theories/RunHist.v', 'theories/RunCodec.v', 'theories/Cbor.v', 'theories/Utf8.v', 'theories/Tags.v', 'theories/Wire.v', 'theories/Codec.v', 'theories/Run.v', 'gen/GenTags.v', 'spec/SpecTags.v', 'spec/SpecTables.v', 'gen/GenConsts.v']
 
 TRUSTED_BASE = [
     'Coq 8.16.1 kernel (coqc; vm_compute used in tie obligations; no native_compute)',
@@ -61,6 +61,11 @@ def _hist_class(inp, obs):
 
 
 PROPS = {
+    'C09': dict(
+        cone=CLAIMS_CONE + ['ties/TieTags.v'], level='proof',
+        nontrivial=lambda i, o: True, classify=lambda i, o: 'P%s %s' % (i.split(' ')[1], o.split(' ')[0][:3]),
+        rule='TODO',
+    ),
     'C11': dict(
         cone=CLAIMS_CONE + ['theories/SetterProofs.v'], level='proof',
         nontrivial=_hist_nontrivial, classify=_hist_class, kernel_maxlen=8000,
@@ -100,7 +105,7 @@ def corpus_lines(verif, pid):
 def tokens_match(obs, want):
     """want may contain '*' tokens (unspecified by the property) and
     'a|b' alternatives."""
-    if obs == want:
+    if obs == want or want == '*':
         return True
     a, b = obs.split(' '), want.split(' ')
     if len(a) != len(b):
